@@ -369,10 +369,17 @@ def mstate(s):
     return s.sel("Model.state", W.MODEL)
 
 
+def _plain_array(a):
+    return z3.is_const(a) and a.decl().kind() == z3.Z3_OP_UNINTERPRETED
+
+
 def prefix_kept(a0, a1, upto, tag="k"):
     k = z3.Const(f"{tag}!pk", Int)
-    return z3.ForAll([k], z3.Implies(z3.And(k >= 0, k < upto), z3.Select(a1, k) == z3.Select(a0, k)),
-                     patterns=[z3.Select(a1, k)])
+    body = z3.Implies(z3.And(k >= 0, k < upto), z3.Select(a1, k) == z3.Select(a0, k))
+    # a trigger may not contain logical connectives: a log that is a Store(..., Not(..)) term (the code computed the
+    # logged verdict with `not`/`or`) cannot be one; fall back to the other array, or to no explicit trigger
+    pat = z3.Select(a1, k) if _plain_array(a1) else z3.Select(a0, k) if _plain_array(a0) else None
+    return z3.ForAll([k], body, patterns=[pat]) if pat is not None else z3.ForAll([k], body)
 
 
 def others_kept(key, s0, s, ref):
